@@ -436,7 +436,7 @@ Lemma sys_wr_eq : forall cid fd src exact w, sys_wr cid fd src exact w =
             let w2 := emit (obs "wdata" [ABytes offered]) w' in
             if n <? 0 then
               match rest with
-              | ASym e :: _ => (KErr e, if is_eagain e then w2 else ghost "fail" cid [] w2)
+              | ASym e :: _ => (KErr e, if is_eagain e then ghost "eagain" cid [] w2 else ghost "fail" cid [] w2)
               | _ => (KErr "err", ghost "fail" cid [] w2)
               end
             else (KOk n [], ghost "hand" cid (ztake n offered) w2)
@@ -641,9 +641,10 @@ Lemma Inv_sys_wr_ign : forall (P : line -> Prop) (R : rel) cid fd src exact w k 
   (forall d, out_ign hstep step (obs "wdata" [ABytes d])) ->
   (forall d, out_ign hstep step ("g", [ASym "fail"; AInt cid; ABytes d])) ->
   (forall d, out_ign hstep step ("g", [ASym "hand"; AInt cid; ABytes d])) ->
+  (forall d, out_ign hstep step ("g", [ASym "eagain"; AInt cid; ABytes d])) ->
   INV R w -> sys_wr cid fd src exact w = (k, w') -> INV R w'.
 Proof.
-  intros P R cid fd src exact w k w' PO HP HN O1 O2 O3 O4 HI E. rewrite sys_wr_eq in E.
+  intros P R cid fd src exact w k w' PO HP HN O1 O2 O3 O4 O5 HI E. rewrite sys_wr_eq in E.
   destruct (pull _) as [[[nm0 args]|] w1] eqn:Ep.
   - assert (HI0 : INV R (emit (obs "sys" [ASym "wr"; AInt fd]) w)) by (apply Inv_emit_ign; assumption).
     pose proof (Inv_pull hstep step h0 s0 R _ _ w1 PO HI0 Ep) as HA. cbn [after_pull] in HA.
@@ -661,7 +662,7 @@ Proof.
       destruct (n <? 0).
       * destruct rest as [|[?|?|e] ?]; inversion E; subst;
           try (apply Inv_emit_ign; [apply O3|exact HR2]).
-        destruct (is_eagain e); [exact HR2|apply Inv_emit_ign; [apply O3|exact HR2]].
+        destruct (is_eagain e); [apply Inv_emit_ign; [apply O5|exact HR2]|apply Inv_emit_ign; [apply O3|exact HR2]].
       * inversion E; subst. apply Inv_emit_ign; [apply O4|exact HR2].
     + inversion E; subst. apply Inv_dead. eapply Inv_desync. exact HA.
   - inversion E; subst. apply Inv_dead.
@@ -779,7 +780,7 @@ Lemma el_open_eq : forall fuel cid w, el_open fuel cid w =
     | None => (true, w3)
     | Some data =>
       let c3 := wc w3 cid in
-      let w3 := if c_udp c3 then w3 else ghost "openreply" cid [] (ghost "sub" cid data w3) in
+      let w3 := if c_udp c3 then w3 else ghost "sub" cid data w3 in
       if c_udp c3 && negb (c_remote c3) then
         match sys "sendto" [AInt (c_fd c3); ABytes data; bool_arg false] w3 with
         | (KErr _, w') => (false, w')
@@ -789,8 +790,7 @@ Lemma el_open_eq : forall fuel cid w, el_open fuel cid w =
         (true, wsetc w3 cid (c_set_out c3 (c_out c3 ++ data)))
       else open_loop cid (S (List.length (inp w3))) data w3
     end in
-  let w4 := ghost "openreply-end" cid [] w4 in
-  if negb ok then (RErr, w4)
+  if negb ok then el_close fuel cid false w4
   else
     let c4 := wc w4 cid in
     let '(r5, w5) :=
@@ -805,7 +805,7 @@ Lemma el_open_eq : forall fuel cid w, el_open fuel cid w =
       | AClose => el_close fuel cid true w5
       | AShutdown => (RShutdown, w5)
       end
-    | r => (r, w5)
+    | _ => el_close fuel cid false w5
     end.
 Proof. reflexivity. Qed.
 
@@ -834,6 +834,9 @@ Qed.
 
 Lemma polling_eq : forall f w, polling (S f) w =
   let w := emit ("g", [ASym "count"; AInt (zlen (l_reg (st w))); ABytes []]) w in
+  let w := fold_left (fun w fc => if c_udp (wc w (snd fc)) then w else
+                                  emit ("g", [ASym "pending"; AInt (snd fc); AInt (fst fc);
+                                              AInt (zlen (c_out (wc w (snd fc))))]) w) (l_reg (st w)) w in
   match pull w with
   | (None, w1) => w1
   | (Some (name, evs), w1) =>
@@ -904,3 +907,27 @@ Proof.
   rewrite (zdrop_neg _ (n - zlen a)) by lia. reflexivity.
 Qed.
 
+
+(* the `g pending` markers of a polling iteration, when the checker ignores them *)
+Definition pending_fold (l : list (Z * Z)) (w : world) : world :=
+  fold_left (fun w fc => if c_udp (wc w (snd fc)) then w else
+                         emit ("g", [ASym "pending"; AInt (snd fc); AInt (fst fc);
+                                     AInt (zlen (c_out (wc w (snd fc))))]) w) l w.
+
+Section Derived5.
+Context {H S : Type}.
+Variable hstep : H -> ev -> option H.
+Variable step : S -> ev -> option S.
+Variable h0 : H.
+Variable s0 : S.
+Local Notation INV := (Inv hstep step h0 s0).
+
+Lemma Inv_pending_ign : forall (R : H -> S -> lstate -> Prop) l w,
+  (forall cid fd n, out_ign hstep step ("g", [ASym "pending"; AInt cid; AInt fd; AInt n])) ->
+  INV R w -> INV R (pending_fold l w).
+Proof.
+  intros R l. unfold pending_fold. induction l as [|fc l IH]; intros w HO HI; cbn [fold_left]; [exact HI|].
+  apply IH; [exact HO|]. destruct (c_udp _); [exact HI|]. apply Inv_emit_ign; [apply HO|exact HI].
+Qed.
+
+End Derived5.
